@@ -6,7 +6,7 @@ sys.path.insert(0, os.path.join(ROOT, "harness"))
 import registry
 
 NOTE = ("Trusted base: Lean 4.33 kernel; axioms propext, Classical.choice, Quot.sound only (audited each run, no sorry/native_decide/own axioms); "
-        "Lean code generator for the compiled drivers; harness/gen_tables.py + harness/gen_formulas.py (reflection + AST translators: declarative tables, and the bodies of the arithmetic getters / predicates / constructors) and the differential correspondence harness "
+        "Lean code generator for the compiled drivers; harness/gen_tables.py + harness/gen_formulas.py + harness/gen_loops.py (reflection + AST translators: declarative tables, the bodies of the arithmetic getters / predicates / constructors, and two loops: EntrySetIterator.__next__ and the replay loop of BalanceSet.__init__) and the differential correspondence harness "
         "(sampling: model = code is validated, not proved); CPython/decimal/datetime/heapq/AVL/ezodf modelled, not verified. ")
 BASE = "cd /repo && /venv/bin/python -m pytest -ra -q -p no:cacheprovider --timeout=900 --continue-on-collection-errors"
 all_ids = [json.loads(l)["id"] for l in open(os.path.join(ROOT, "properties.jsonl"))]
@@ -33,7 +33,7 @@ m = {
     "hooks": {"guard": "RP2_VERIF", "enable": "none needed: observation is by public API and run-time wrapping from the harness; RP2_VERIF=1 is exported to the code under test but no source commit reads it",
               "baseline_off_cmd": BASE, "source_commits": [], "add_only": True},
     "engines": [{"name": "lean-model+correspondence", "path": "lean/", "serves_properties": [c["property_id"] for c in checks],
-                 "kind_free_text": "hand-written executable Lean 4 model + machine-checked theorems; tables and the bodies of the arithmetic getters / predicates / constructors regenerated (translated) from the source each run; line-protocol differential correspondence against the real code"}],
+                 "kind_free_text": "hand-written executable Lean 4 model + machine-checked theorems; tables, the bodies of the arithmetic getters / predicates / constructors and two loops (entry-set iterator, balance replay) regenerated (translated) from the source each run; line-protocol differential correspondence against the real code"}],
     "checks": checks,
     "notes": "All checks: regenerate lean/Rp2/Gen (tables + translated formulas) from /repo, lake build the property's theorem cone, audit axioms, run correspondence streams + oracles, replay known findings (known_findings.json).",
 }
